@@ -41,6 +41,8 @@ ASSUMPTIONS = [
     "rdatasets are atomic in the model (one canonical rdata per type); delete-by-rdata is exercised with a hit (rdataset removed) and a miss (rdataset rewritten)",
     "closest encloser and nearest neighbours are taken among non-occluded names (below a cut the encloser is the cut), the reading under which the unchanged code is right except for D19/D20",
     "bounds presupposes an apex node (the code asserts it); histories without an apex node are compared on the error family only",
+    "the state of a new zone (plain initial version vs empty B-tree version) and the SOA-owner check of the transaction layer are outside C20: the former is probed and passed to the model, the latter is never exercised off the apex",
+    "hypotheses of the theorems: zone origin absolute; owner names are legal dns.name.Name label lists (only the last label may be empty); an NS rdataset has covers = NONE",
 ]
 
 NS, SOA, CNAME, RRSIG = 2, 6, 5, 46
@@ -193,6 +195,7 @@ def evaluate(case):
     apex = () if rel else low(origin_labels)
     zone = dns.btreezone.Zone(origin, relativize=rel)
     out, spec_out, fails = [], [], []
+    marks = []          # per transaction end / query: does the property hold there? (for the guard implication)
     txn = None          # open transaction (or "failed")
     commit = False
     tainted = False     # flags/index already diverged from the definition in this history
@@ -282,6 +285,8 @@ def evaluate(case):
             out.append("E!V")
             spec_out.append("E!V")
             txn = None
+            v0 = committed_version()
+            marks.append(("g", v0 is None or not check_state(v0, "commit", None)[0]))
             return
         pre_sp = None
         try:
@@ -297,11 +302,13 @@ def evaluate(case):
         if v is None:
             out.append("C-")
             spec_out.append("C-")
+            marks.append(("g", True))
             return
         out.append("C" + show_snap(v))
         stats["commits"] += 1
         # a rollback (or replacement) may bring back a consistent state: re-evaluate taint from the committed version
         clauses, sp = check_state(v, "commit", None)
+        marks.append(("g", not clauses))
         if not clauses:
             tainted = False
         elif not tainted:
@@ -331,7 +338,9 @@ def evaluate(case):
             if v is None:
                 out.append("B!N")
                 spec_out.append("B!N")
+                marks.append(("q", None))
                 continue
+            marks.append(("q", None))   # filled at the end: implementation token == definition token
             key = validate_key(cfg, tuple(q.labels))
             sp = spec_of(v)
             want = sp.bounds(key) if key is not None else None
@@ -350,7 +359,7 @@ def evaluate(case):
                     fails.append(("C20/bounds/raises/assertion", f"bounds({q}) asserted although a predecessor exists"))
                 continue
             except BaseException as e:
-                out.append("FOREIGN:" + type(e).__name__)
+                out.append("B!F:" + type(e).__name__)
                 fails.append(("C20/bounds/foreign-exception:" + type(e).__name__, f"bounds({q}) raised {e!r}"))
                 continue
             got = {"left": low(b.left.labels), "right": None if b.right is None else low(b.right.labels),
@@ -420,6 +429,15 @@ def evaluate(case):
         out.append(tok + show_snap(txn.version))
         after_op(txn.version, (kind, key, ty, cov), pre_sp)
     close()
+    # a query "holds" when the implementation's answer is the definition's answer
+    bi = [t for t in out if t.startswith("B")]
+    bs = [t for t in spec_out if t.startswith("B")]
+    qi = 0
+    for i, (kind, val) in enumerate(marks):
+        if kind == "q":
+            marks[i] = ("q", bi[qi] == bs[qi])
+            qi += 1
+    stats["marks"] = marks
     return "ok " + " ".join(out) if out else "ok", "ok " + " ".join(spec_out) if spec_out else "ok", fails, stats
 
 
@@ -449,12 +467,22 @@ def detect_variant():
 
 
 # ---------------------------------------------------------------------------------------------------
+def init_bit():
+    """does a new zone start with an (empty) B-tree version, or with the plain version only a replacement writer can follow?"""
+    if "init" not in _variant_cache:
+        z = dns.btreezone.Zone(dns.name.from_text("example."))
+        _variant_cache["init"] = "1" if hasattr(z._versions[-1], "delegations") else "0"
+    return _variant_cache["init"]
+
+
 def op_line(case, variant):
-    return f"c20.hist {1 if case['rel'] else 0} {enc_labels([bytes.fromhex(x) for x in case['origin']])} {variant} " + " ".join(case["items"])
+    return (f"c20.hist {1 if case['rel'] else 0} {enc_labels([bytes.fromhex(x) for x in case['origin']])} {variant} "
+            f"{init_bit()} " + " ".join(case["items"]))
 
 
 def spec_line(case):
-    return f"c20.spec {1 if case['rel'] else 0} {enc_labels([bytes.fromhex(x) for x in case['origin']])} " + " ".join(case["items"])
+    return (f"c20.spec {1 if case['rel'] else 0} {enc_labels([bytes.fromhex(x) for x in case['origin']])} "
+            f"{init_bit()} " + " ".join(case["items"]))
 
 
 def eval_case(ctx: Ctx, case: dict):
@@ -462,6 +490,9 @@ def eval_case(ctx: Ctx, case: dict):
     trace, spec, fails, stats = evaluate(case)
     ctx.corr(op_line(case, variant), trace, case)
     ctx.corr(spec_line(case), spec, case)
+    _guard_queue.append((op_line(case, variant).replace("c20.hist", "c20.guard", 1), stats.pop("marks"), case))
+    if len(_guard_queue) >= 20000:
+        flush_guards(ctx)
     for k, n in stats.items():
         ctx.count("n." + k, n)
     for sig, what in fails:
@@ -474,6 +505,34 @@ def eval_case(ctx: Ctx, case: dict):
 
 
 _minimised = {}
+_guard_queue = []
+
+
+def flush_guards(ctx: Ctx):
+    """the decidable guards of the theorems of record, evaluated by the model along every history: wherever a
+    guard holds the theorem applies, so the property must hold on the implementation at that point"""
+    global _guard_queue
+    q, _guard_queue = _guard_queue, []
+    if not q or not ctx.driver_ok:
+        return
+    from harness.core import run_driver
+    outs = run_driver("C20", [x[0] for x in q])
+    for (line, marks, case), res in zip(q, outs):
+        toks = res.split(" ")[1:]
+        if len(toks) != len(marks):
+            ctx.fail("C20/guard/protocol", f"guard line returned {len(toks)} tokens for {len(marks)} marks", {"kind": "hist", "case": case})
+            continue
+        full = True
+        for tok, (kind, holds) in zip(toks, marks):
+            ctx.count(f"guard.{tok}")
+            if tok.endswith("0"):
+                full = False
+            if tok.endswith("1") and not holds:
+                ctx.fail(f"C20/guard/theorem-applies-but-property-fails/{kind}",
+                         "the guard of the theorem of record holds at this point of the history, yet the implementation's "
+                         f"state/answer differs from the definition ({kind})", {"kind": "hist", "case": case})
+                break
+        ctx.count("guard.history-fully-covered" if full else "guard.history-leaves-guard")
 
 
 def minimise(case, sig, budget=120):
@@ -501,9 +560,9 @@ def impl_of_op(op: str):
     """used by `./check C20 --replay` on a correspondence break: recompute the implementation's line"""
     f = op.split(" ")
     if f[0] == "c20.hist":
-        case = {"rel": f[1] == "1", "origin": [l.hex() for l in dec_labels(f[2])], "items": f[4:]}
+        case = {"rel": f[1] == "1", "origin": [l.hex() for l in dec_labels(f[2])], "items": f[5:]}
         return evaluate(case)[0]
-    case = {"rel": f[1] == "1", "origin": [l.hex() for l in dec_labels(f[2])], "items": f[3:]}
+    case = {"rel": f[1] == "1", "origin": [l.hex() for l in dec_labels(f[2])], "items": f[4:]}
     return evaluate(case)[1]
 
 
@@ -797,6 +856,7 @@ def run(ctx: Ctx):
         eval_case(ctx, c)
         ctx.count("corpus")
     generate(ctx, 1 if ctx.tier == "quick" else 12, ctx.rng)
+    flush_guards(ctx)
 
 
 def search(ctx: Ctx):
@@ -807,6 +867,7 @@ def search(ctx: Ctx):
             for cut in range(len(items), 0, -max(1, len(items) // 8)):
                 eval_case(ctx, dict(m.case, items=items[:cut]))
     generate(ctx, 3 if ctx.tier == "quick" else 24, ctx.rng.fork(20))
+    flush_guards(ctx)
 
 
 def replay(ctx: Ctx, obj: dict):
@@ -819,8 +880,8 @@ def replay(ctx: Ctx, obj: dict):
 
 
 LEVEL = {
-    "text": "Lean 4 theorems over an executable model of dns/btreezone.py (WritableVersion put/delete_rdataset/delete_node, _maybe_cow_with_name with the per-version changed set, update_glue_flag, Delegations.get_delegation/is_glue, ImmutableVersion.bounds) on a sorted association list: after any history of transactions the node store iterates in canonical order; flags and delegation index equal the functions of content given by the documentation (full theorem for the repaired variant, guarded theorem plus kernel-checked counter-examples for the code as shipped); bounds equals its specification. The model is tied to the code by a differential correspondence check over whole histories observed after every operation, and the oracle's recompute-from-definition is compared with the Lean specification itself.",
-    "note": "Trusted: Lean kernel + propext/Classical.choice/Quot.sound; the statements in lean/Props/C20.lean; the correspondence harness and generators; the B-tree is replaced by a sorted association list (C19 covers the refinement). Known defects of the unchanged tree (D15, D16, D19, D20, CNAME at a cut) are recorded in KNOWN_FINDINGS.json with witnesses in corpus/C20.",
-    "technique": "Lean 4 proof (invariant over histories, refinement of cursor walks to list functions, order laws of canonical name order) + model-vs-implementation correspondence + recompute-from-definition oracle",
+    "text": "Lean 4 theorems (no sorry, axioms propext/Classical.choice/Quot.sound only) over an executable model of dns/btreezone.py (WritableVersion.put_rdataset/delete_rdataset/delete_node, _maybe_cow_with_name with the per-version changed set, update_glue_flag, Delegations.get_delegation/is_glue, ImmutableVersion.bounds, the thin transaction layer) on a sorted association list keyed by names in the canonical order of Name.fullcompare (order laws - total order, antisymmetry on lower-case names, convexity of subtrees, ancestor chains, monotonicity of common-label counts - are proved from the model of fullcompare itself). Proved for ALL histories of transactions (commit, rollback, replacement, failing operations) over legal names, relativized and absolute zones, and ALL query names: (1) iteration_canonical - node store and index strictly increasing, every variant, no guard; (2) flags_eq_spec / index_eq_spec - every node flag and the delegation index equal the functions of zone content given by the documentation, full theorem for the repaired variant; flags_eq_spec_partial - the same for the code as shipped (or any partial repair) under a decidable guard that excludes exactly the triggers of D15, D16 and CNAME-at-a-cut, with kernel-checked counter-examples for each; (3) bounds_eq_spec / bounds_eq_spec_partial - bounds(name) equals its specification (nearest non-occluded neighbours, closest encloser counting empty non-terminals, at-or-below-delegation bit), full for the repaired variant, guarded for the shipped code (D19, D20), with counter-examples. Tie: whole-history differential correspondence observed after every operation and every commit, all five decision points probed on the implementation so that the model variant follows the code; the oracle's recompute-from-definition is compared with the Lean specification itself on every history; the theorems' guards are evaluated by the model along every history and wherever they hold the property is required of the implementation.",
+    "note": "Trusted: Lean kernel; the statements in lean/Props/C20.lean and the specification/guard definitions in lean/Model/BTreeZone.lean; the correspondence harness and its generators (differential testing bounds the tie); the B-tree is replaced by a sorted association list (its refinement is property C19); owner-name case is canonicalised (lower-cased keys). Readings fixed: neighbours and closest encloser are taken among non-occluded names; bounds presupposes an apex node (the code asserts it). Defects of the unchanged tree D15, D16, D19, D20 and CNAME-put-at-a-cut are genuine violations, recorded narrowly in KNOWN_FINDINGS.json with witnesses in corpus/C20; four-line repairs for D15, D19, D20 and the CNAME case were validated against this check (variant detected, finding gone, no correspondence break) and the btreezone/btree/zone test files; D16 needs a redesign of update_glue_flag (the repaired model step glueStepFixed describes one).",
+    "technique": "Lean 4 proof (invariant over histories with a frame theorem for the specification, refinement of cursor walks on a sorted list to filters/maps, order laws of the canonical name order derived from the model of fullcompare) + model-vs-implementation correspondence + recompute-from-definition oracle + guard/implementation implication check",
     "design_ref": "DESIGN.md §7 C20",
 }
